@@ -181,7 +181,8 @@ def gen_plan(seed, index, tier):
         plan["cfg"] = {"pm": [rng.randint(1, 4), rng.choice(["sigmoid", "leaky_relu"])] if rng.random() < 0.5 else [],
                        "am": [], "opt": rng.choice(["SGD", "Adam"]), "lr": rng.choice([0.05, 0.2]),
                        "epochs": rng.choice([1, 2]), "batch_size": rng.choice([-1, 4, 8]), "rs": rng.randint(0, 10**6),
-                       "constraints": rng.choice(["demographic_parity", "equalized_odds"]), "d": d}
+                       "constraints": rng.choice(["demographic_parity", "equalized_odds"]), "d": d,
+                       "callbacks": rng.choice([None, None, "callable", "list"])}
         plan["data"] = [_adv_dataset(rng, d, cls == "ADVR") for _ in range(ndata)]
     plan["ops"] = _history(rng, cls, index, ndata, tier)
     plan["seeds"] = [rng.choice([0, 1, 2**32 - 1]) if rng.random() < 0.15 else rng.randint(0, 2**31 - 1) for _ in range(3)]
@@ -194,6 +195,15 @@ def gen_plan(seed, index, tier):
 
 # --------------------------------------------------------------------------
 # factories
+
+
+def noop_callback(*args, **kwargs):
+    """A documented form of the adversarial `callbacks` parameter: one callable (returns None = keep going)."""
+    return None
+
+
+def noop_callback_2(*args, **kwargs):
+    return False
 
 
 def _base_learner(kind, for_to=False, stub_method="predict_proba"):
@@ -273,7 +283,8 @@ def factory(plan, twin=False):
     from fairlearn.adversarial import AdversarialFairnessClassifier, AdversarialFairnessRegressor
 
     K = AdversarialFairnessClassifier if cls == "ADVC" else AdversarialFairnessRegressor
-    return K(backend="torch", predictor_model=list(cfg["pm"]), adversary_model=list(cfg["am"]),
+    cbs = {"callable": noop_callback, "list": [noop_callback, noop_callback_2]}.get(cfg.get("callbacks"))
+    return K(backend="torch", callbacks=cbs, predictor_model=list(cfg["pm"]), adversary_model=list(cfg["am"]),
              predictor_optimizer=cfg["opt"], adversary_optimizer=cfg["opt"], learning_rate=cfg["lr"], epochs=cfg["epochs"],
              batch_size=cfg["batch_size"], constraints=cfg["constraints"], shuffle=False, warm_start=False,
              random_state=cfg["rs"])
